@@ -4,5 +4,5 @@ CONSTANTS
   Explicit = {0, 1, 2, 3}
   Shapes <- ShapesDef
   Weak = {}
-INVARIANTS UniqueAids NonZero UniqueIids Idempotent
+INVARIANTS UniqueAids NonZero UniqueIids Idempotent AutomaticAccepted
 CHECK_DEADLOCK FALSE
